@@ -148,3 +148,7 @@ fn c04x_control_dot_unescaped() {
     let _ = Atom::Char('.').fmt_regex(&config, &mut out);
     assert!(out.len == 1, "CONTROL (expected to fail): '.' is emitted unescaped");
 }
+
+// native replay of a Kani counterexample (bin/vcheck replay): the generated test is included here
+#[cfg(verif_playback)]
+include!("/verif/work/k/playback/fnmatch_regex_harness.rs");
